@@ -55,6 +55,7 @@ pub struct Runner {
     counter: usize,
     pub rt_flavor: String,
     pub scen_id: String,
+    last_digest: Option<Vec<(String, String)>>,
 }
 
 /// Outcome of one API call.
@@ -90,7 +91,7 @@ fn copy_dir(from: &Path, to: &Path) -> std::io::Result<()> {
 }
 
 pub fn build_rt(flavor: &str) -> tokio::runtime::Runtime {
-    match flavor {
+    match flavor.trim_end_matches("-nodrain") {
         "mt1" => tokio::runtime::Builder::new_multi_thread().worker_threads(1).enable_all().build().unwrap(),
         "mt2" => tokio::runtime::Builder::new_multi_thread().worker_threads(2).enable_all().build().unwrap(),
         "mt8" => tokio::runtime::Builder::new_multi_thread().worker_threads(8).enable_all().build().unwrap(),
@@ -108,6 +109,7 @@ where
     let start = Instant::now();
     WATCHDOG_DEADLINE.store(now_s() + CALL_TIMEOUT_S + 10, Ordering::SeqCst);
     let rt = build_rt(flavor);
+    let nodrain = flavor.ends_with("-nodrain");
     let mut out = CallOut {
         val: None,
         res: String::new(),
@@ -120,9 +122,13 @@ where
     let r = catch_unwind(AssertUnwindSafe(|| {
         rt.block_on(async {
             let r = tokio::time::timeout(Duration::from_secs(CALL_TIMEOUT_S), f()).await;
-            // let tasks spawned by the call (lock release in Drop) finish
+            // let tasks spawned by the call (lock release in Drop) finish -- unless this flavour
+            // models a program that exits as soon as the operation returns
             let t0 = Instant::now();
             loop {
+                if nodrain {
+                    break;
+                }
                 tokio::task::yield_now().await;
                 if tokio::runtime::Handle::current().metrics().num_alive_tasks() == 0 || t0.elapsed() > Duration::from_secs(2) {
                     break;
@@ -151,7 +157,11 @@ where
         }
     }
     // A panic may leave spawned tasks; dropping the runtime cancels them.
-    let _ = catch_unwind(AssertUnwindSafe(|| rt.shutdown_timeout(Duration::from_millis(200))));
+    if nodrain {
+        let _ = catch_unwind(AssertUnwindSafe(|| rt.shutdown_background()));
+    } else {
+        let _ = catch_unwind(AssertUnwindSafe(|| rt.shutdown_timeout(Duration::from_millis(200))));
+    }
     WATCHDOG_DEADLINE.store(0, Ordering::SeqCst);
     out.mon_errors = monitor.take_errors().iter().map(|e| err_name(e)).collect();
     out.ms = start.elapsed().as_millis() as u64;
@@ -233,6 +243,7 @@ impl Runner {
             counter: 0,
             rt_flavor: "ct".into(),
             scen_id: String::new(),
+            last_digest: None,
         }
     }
 
@@ -242,6 +253,11 @@ impl Runner {
     }
 
     pub fn emit_fsck(&self) {
+        if self.rt_flavor.ends_with("-nodrain") {
+            // work left to spawned tasks may or may not have happened, and may still happen:
+            // the projection is taken as it is (the `layout` event makes the validator adopt it)
+            self.log.emit(json!({"ev": "layout"}));
+        }
         self.log.emit(json!({"ev": "fsck", "fs": decode::fsck(&self.arch)}));
     }
 
@@ -273,6 +289,7 @@ impl Runner {
         fs::create_dir_all(&self.work).unwrap();
         self.saved.clear();
         self.src_tree.clear();
+        self.last_digest = None;
         self.counter = 0;
         self.scen_id = sc["id"].as_str().unwrap_or("?").to_string();
         self.rt_flavor = sc.get("rt").and_then(|x| x.as_str()).unwrap_or("ct").to_string();
@@ -327,12 +344,112 @@ impl Runner {
             "probe_write" => self.do_probe_write(st),
             "apath_table" => self.do_apath_table(st),
             "damage_sweep" => self.do_damage_sweep(st),
+            "outside" => self.do_outside(st),
+            "new_archive" => self.do_new_archive(st),
+            "archive_digest" => self.do_archive_digest(st),
             "walk" => self.do_walk(st),
             other => panic!("unknown step op {other}"),
         }
     }
 
+    /// Sentinel files and directories beside the restore destinations (C16). Symlink targets in
+    /// later trees may name them through the placeholder `@OUTSIDE@` (their absolute path).
+    fn do_outside(&mut self, st: &Value) {
+        let nodes: Vec<Node> = serde_json::from_value(st["tree"].clone()).expect("outside tree");
+        tree::materialize(&self.work.join("outside"), &nodes).expect("materialize outside");
+        self.log.emit(json!({"ev": "note", "what": "outside"}));
+    }
+
+    /// Throw the archive away and start a new one, optionally under another runtime flavour (C17).
+    fn do_new_archive(&mut self, st: &Value) {
+        if let Some(f) = st.get("rt").and_then(|x| x.as_str()) {
+            self.rt_flavor = f.to_string();
+        }
+        tree::remove_tree(&self.arch);
+        self.log.emit(json!({"ev": "new_archive", "rt": self.rt_flavor}));
+        let icpt = ActorIcpt::new("init", &self.arch, self.log.clone(), Plan::default(), None);
+        let mon = TestMonitor::arc();
+        let t = Transport::local(&self.arch).with_interceptor(icpt);
+        let out = run_call(&self.rt_flavor, &mon, || async move { Archive::create(t).await.map(|_| ()).map_err(|e| err_name(&e)) });
+        self.log.emit(json!({"ev": "created", "res": out.res, "panic": out.panic}));
+        self.emit_fsck();
+    }
+
+    /// Byte-level picture of the archive directory: relative path -> digest of the bytes, with the
+    /// start/end timestamps of band heads and tails masked. Compared with the previous picture
+    /// taken in this scenario (if any).
+    fn do_archive_digest(&mut self, _st: &Value) {
+        fn walk(dir: &Path, rel: &str, out: &mut Vec<(String, String)>) {
+            let mut names: Vec<_> = fs::read_dir(dir).map(|rd| rd.flatten().collect::<Vec<_>>()).unwrap_or_default();
+            names.sort_by_key(|e| e.file_name());
+            for e in names {
+                let name = e.file_name().to_string_lossy().to_string();
+                let r = if rel.is_empty() { name.clone() } else { format!("{rel}/{name}") };
+                if e.file_type().map(|t| t.is_dir()).unwrap_or(false) {
+                    out.push((format!("{r}/"), String::new()));
+                    walk(&e.path(), &r, out);
+                } else {
+                    let mut bytes = fs::read(e.path()).unwrap_or_default();
+                    if name == "BANDHEAD" || name == "BANDTAIL" {
+                        if let Ok(mut v) = serde_json::from_slice::<Value>(&bytes) {
+                            if let Some(o) = v.as_object_mut() {
+                                for k in ["start_time", "end_time"] {
+                                    if o.contains_key(k) {
+                                        o.insert(k.to_string(), json!(0));
+                                    }
+                                }
+                            }
+                            bytes = serde_json::to_vec(&v).unwrap();
+                        }
+                    }
+                    out.push((r, hex::encode(blake2_rfc::blake2b::blake2b(16, &[], &bytes).as_bytes())));
+                }
+            }
+        }
+        let mut cur = Vec::new();
+        walk(&self.arch, "", &mut cur);
+        let (equal, diffs) = match &self.last_digest {
+            None => (true, vec![]),
+            Some(prev) => {
+                let a: std::collections::BTreeMap<_, _> = prev.iter().cloned().collect();
+                let b: std::collections::BTreeMap<_, _> = cur.iter().cloned().collect();
+                let mut d: Vec<String> = Vec::new();
+                for (k, v) in &a {
+                    if b.get(k) != Some(v) {
+                        d.push(k.clone());
+                    }
+                }
+                for k in b.keys() {
+                    if !a.contains_key(k) {
+                        d.push(k.clone());
+                    }
+                }
+                d.sort();
+                d.dedup();
+                (d.is_empty(), d)
+            }
+        };
+        let first = self.last_digest.is_none();
+        self.last_digest = Some(cur.clone());
+        self.log.emit(json!({"ev": "digest", "first": first, "equal": equal, "diffs": diffs, "nfiles": cur.len(), "rt": self.rt_flavor}));
+        self.emit_fsck();
+    }
+
     pub fn set_tree(&mut self, nodes: &[Node]) {
+        // `@OUTSIDE@` in a symlink target stands for the absolute path of the sentinel area
+        let outside = self.work.join("outside").to_string_lossy().to_string();
+        let nodes: Vec<Node> = nodes
+            .iter()
+            .map(|n| {
+                let mut n = n.clone();
+                if n.k == "Symlink" {
+                    let t = String::from_utf8_lossy(&n.t).replace("@OUTSIDE@", &outside);
+                    n.t = t.into_bytes();
+                }
+                n
+            })
+            .collect();
+        let nodes = &nodes[..];
         tree::materialize(&self.src, nodes).expect("materialize source tree");
         // the projection of what is really there is what counts
         self.src_tree = tree::project(&self.src).expect("project source");
